@@ -1640,7 +1640,7 @@ func genC11(g *G, sc *Scenario, tier string, seed uint64) {
 		case 4, 5:
 			m := map[string]any{"Type": "JavascriptTransform", "Code": js("function transform_entities(entities) { return entities; }")}
 			if g.P(0.6) {
-				m["Parallelism"] = float64(g.PickInt([]int{0, 1, 2, 5, -1}))
+				m["Parallelism"] = float64(g.PickInt([]int{0, 1, 2, 3, 4, 5, 8, -1}))
 			}
 			return m
 		case 6:
@@ -1728,12 +1728,12 @@ func genC11(g *G, sc *Scenario, tier string, seed uint64) {
 		return cfg
 	}
 	ent := func() Ent {
-		return Ent{"id": fmt.Sprintf("%se%d", MkE, g.Intn(6)), "props": map[string]any{MkS + "v": float64(g.Intn(1000))}, "refs": map[string]any{}}
+		return Ent{"id": fmt.Sprintf("%se%d", MkE, g.Intn(10)), "props": map[string]any{MkS + "v": float64(g.Intn(1000))}, "refs": map[string]any{}}
 	}
 	for _, d := range data {
 		if g.P(0.8) {
 			var ents []Ent
-			for i := g.Range(1, 5); i > 0; i-- {
+			for i := g.Range(1, 9); i > 0; i-- {
 				ents = append(ents, ent())
 			}
 			sc.Ops = append(sc.Ops, Op{K: "batch", DS: d, Ents: ents})
@@ -1750,6 +1750,37 @@ func genC11(g *G, sc *Scenario, tier string, seed uint64) {
 		}
 		walk = false
 		sc.Ops = append(sc.Ops, Op{K: "addJob", M: cfg})
+	}
+	focused := g.P(0.2)
+	if focused {
+		// a copy job with per-entity error handling whose sink refuses one entity for good, triggered often
+		// enough that a second trigger of the same job object arrives while a run is under way
+		t := map[string]any{"jobType": g.Pick([]string{"incremental", "fullsync"})}
+		if g.P(0.6) {
+			t["triggerType"], t["monitoredDataset"] = "onchange", "dA"
+		} else {
+			t["triggerType"], t["schedule"] = "cron", "@every 1s"
+		}
+		hs := []any{map[string]any{"errorHandler": "log"}}
+		if g.P(0.4) {
+			hs = append(hs, map[string]any{"errorHandler": "reRun", "maxRetries": float64(g.Range(1, 2)), "retryDelay": float64(g.PickInt([]int{1, 2}))})
+		}
+		t["onError"] = hs
+		src := map[string]any{"Type": "DatasetSource", "Name": "dA"}
+		if g.P(0.3) {
+			src = map[string]any{"Type": "SlowSource", "Sleep": g.Pick([]string{"700ms", "2500ms"}), "BatchSize": float64(g.Range(3, 5))}
+		}
+		cfg := map[string]any{"id": "job1", "title": "title-job1", "source": src, "sink": map[string]any{"Type": "DatasetSink", "Name": "dC"},
+			"paused": false, "batchSize": float64(g.Range(1, 2)), "triggers": []any{t}}
+		sc.Ops[len(sc.Ops)-njobs] = Op{K: "addJob", M: cfg}
+		var ents []Ent
+		for i := 0; i < 6; i++ {
+			ents = append(ents, Ent{"id": fmt.Sprintf("%se%d", MkE, i), "props": map[string]any{MkS + "v": float64(g.Intn(1000))}, "refs": map[string]any{}})
+		}
+		sc.Ops = append([]Op{{K: "batch", DS: "dA", Ents: ents}}, sc.Ops...)
+	}
+	if focused || g.P(0.25) {
+		sc.Faults = append(sc.Faults, Fault{At: "sink.dataset", Kind: "reject", Arg: int64(g.Range(0, 4))})
 	}
 	// planned faults by arrival count
 	for i := g.Intn(4); i > 0; i-- {
@@ -1768,7 +1799,11 @@ func genC11(g *G, sc *Scenario, tier string, seed uint64) {
 			case 3:
 				ops = append(ops, Op{K: g.Pick([]string{"pause", "unpause", "unpause"}), S: id})
 			case 4, 5:
-				ops = append(ops, Op{K: "batch", DS: g.Pick(data), Ents: []Ent{ent()}})
+				ds := g.Pick(data)
+				if focused {
+					ds = "dA"
+				}
+				ops = append(ops, Op{K: "batch", DS: ds, Ents: []Ent{ent()}})
 			case 6, 7:
 				ops = append(ops, Op{K: "status", S: id})
 			case 8:
